@@ -1,8 +1,35 @@
 /* Proof units for the per-module source registry (C09, C13, C18, C20): register_mod_src(), deregister_mod_src(), create_src() -- REAL Lib/core/src.c. */
+#ifdef V_SRCLENU_UNIT
+#define V_SELPRE(i) (type == M_SRC_TYPE_END ? g_PL[i] - g_PL[1] : (((unsigned)type >= 1 && (unsigned)type < (unsigned)(i)) ? g_LL[(unsigned)type] : 0))
+#define V_SUBSDONE  ((type == M_SRC_TYPE_PS || type == M_SRC_TYPE_END) ? g_LL[0] : 0)
+#define M_VERIF_LOOPSPEC_len_subs \
+    __CPROVER_assigns(m_itr, m_idx, len, g_mit->idx, g_psrc->flags, g.visited, g.visited_user) \
+    __CPROVER_loop_invariant(m_itr == NULL ? (g.visited - g_v0 == g_LL[0]) : (m_itr == (m_map_itr_t *)g_mit && g_mit->m == (m_map_t *)&g_lsubs && g_mit->idx < g_lsubs.len && g.visited - g_v0 == g_mit->idx)) \
+    __CPROVER_loop_invariant(len >= 0 && (size_t)len == g.visited_user - g_u0 && g.visited_user - g_u0 <= g.visited - g_v0 && g.visited - g_v0 <= g_LL[0])
+#define M_VERIF_LOOPSPEC_len_kinds \
+    __CPROVER_assigns(i, len, g_bit->t, g_bit->idx, g_bit->removed, g_psrc->flags, g.visited, g.visited_user) \
+    __CPROVER_loop_invariant(M_SRC_TYPE_FD <= i && i <= M_SRC_TYPE_END) \
+    __CPROVER_loop_invariant(g.visited - g_v0 == V_SUBSDONE + V_SELPRE(i)) \
+    __CPROVER_loop_invariant(len >= 0 && (size_t)len == g.visited_user - g_u0 && g.visited_user - g_u0 <= g.visited - g_v0) \
+    __CPROVER_decreases(M_SRC_TYPE_END - i)
+#define M_VERIF_LOOPSPEC_len_srcs \
+    __CPROVER_assigns(m_itr, m_idx, len, g_bit->idx, g_psrc->flags, g.visited, g.visited_user) \
+    __CPROVER_loop_invariant(M_SRC_TYPE_FD <= i && i < M_SRC_TYPE_END && (type == M_SRC_TYPE_END || (unsigned)type == (unsigned)i)) \
+    __CPROVER_loop_invariant(m_itr == NULL ? (g.visited - g_v0 == V_SUBSDONE + V_SELPRE(i) + g_LL[i]) \
+                                           : (m_itr == (m_bst_itr_t *)g_bit && g_bit->t == (m_bst_t *)&g_lsets[i] && g_bit->idx < g_lsets[i].len && g.visited - g_v0 == V_SUBSDONE + V_SELPRE(i) + g_bit->idx)) \
+    __CPROVER_loop_invariant(len >= 0 && (size_t)len == g.visited_user - g_u0 && g.visited_user - g_u0 <= g.visited - g_v0)
+#endif
 #include "vmodel.h"
+#ifdef V_SRCLENU_UNIT
+static struct _bst g_lsets[M_SRC_TYPE_END]; static struct _map g_lsubs;
+#endif
 #include "core/src.c"               /* real */
 int g_newfd;
-#ifndef V_SRCLEN_UNIT
+#ifdef V_SRCLENU_UNIT
+#define V_MSRCS_UNIT      /* (own iterator contracts: leave the empty-set iterator contract of abs.contracts.h out) */
+#include "abs.contracts.h"
+#include "srclen.contracts.h"
+#elif !defined(V_SRCLEN_UNIT)
 #include "abs.contracts.h"
 #include "src.contracts.h"
 #endif
@@ -59,6 +86,22 @@ void h_src_len(void) {
     /* the count reported for one kind is the size of that kind's set, library-internal sources excluded; M_SRC_TYPE_END asks for all kinds together */
     V_CHECK("C09.reported-count-equals-the-size-of-that-kinds-set-internal-excluded", r == (ssize_t)(vin_type == M_SRC_TYPE_END ? total : expect_kind[vin_type]));
     V_COVER("len-timers-only", vin_type == M_SRC_TYPE_TMR && r == 1 && total == 3); V_COVER("len-all", vin_type == M_SRC_TYPE_END && r == 5); V_COVER("len-subscriptions", vin_type == M_SRC_TYPE_PS && r == 2 && total > 2);
+    V_CANARY();
+}
+#elif defined(V_SRCLENU_UNIT)
+void h_src_len_u(void) {
+    build_reg();
+    g_mctx = g_ctx;
+    g_bit = malloc(sizeof *g_bit); g_mit = malloc(sizeof *g_mit); g_psrc = malloc(sizeof *g_psrc); __CPROVER_assume(g_bit && g_mit && g_psrc);
+    g_bit->t = NULL; g_bit->idx = 0; g_bit->removed = false; g_mit->m = NULL; g_mit->idx = 0; g_psrc->flags = 0; g_psrc->mod = g_mod;
+    uint64_t lens[8] = { vin_d0, vin_d1, vin_d2, vin_setlen & 7, (vin_setlen >> 3) & 7, (vin_setlen >> 6) & 7, (vin_setlen >> 9) & 7, (vin_setlen >> 12) & 7 };
+    g_PL[0] = 0;
+    for (int k = 0; k < M_SRC_TYPE_END; k++) { V_ASSUME(lens[k] < 1000000); g_LL[k] = lens[k]; g_PL[k + 1] = g_PL[k] + lens[k];
+        if (k == 0) { g_lsubs.len = lens[0]; g_lsubs.internal = 0; g_mod->subscriptions = (m_map_t *)&g_lsubs; g_mod->srcs[0] = NULL; } else { g_lsets[k].len = lens[k]; g_lsets[k].internal = 0; g_mod->srcs[k] = (m_bst_t *)&g_lsets[k]; } }
+    g_v0 = g.visited; g_u0 = g.visited_user;
+    ssize_t r = m_mod_src_len(g_mod, (m_src_types)vin_sflags);
+    V_COVER("len-all-many", vin_sflags == M_SRC_TYPE_END && r == 1234 && vin_d1 == 2000); V_COVER("len-timers-only", vin_sflags == M_SRC_TYPE_TMR && r == 3 && vin_d1 == 7 && vin_d2 == 5);
+    V_COVER("len-subscriptions", vin_sflags == M_SRC_TYPE_PS && r == 2 && vin_d1 > 0); V_COVER("len-bad-type", r == -EINVAL);
     V_CANARY();
 }
 #elif defined(V_SRCREG_UNIT)
